@@ -8,6 +8,7 @@ import (
 	"embed"
 	"encoding/pem"
 	"fmt"
+	"io"
 	"sync"
 
 	cose "github.com/veraison/go-cose"
@@ -146,6 +147,30 @@ func (k keyPair) Signer() cose.Signer {
 		panic("VERIF-INFRA: cose.NewSigner: " + err.Error())
 	}
 	return s
+}
+
+// hsmSigner: a cose.Signer written around a crypto.Signer handle (an HSM / KMS
+// key, or simply the private key): by embedding the handle it also exposes
+// Public(), which go-cose's own signers do not.
+type hsmSigner struct {
+	crypto.Signer
+	inner cose.Signer
+}
+
+func (h hsmSigner) Algorithm() cose.Algorithm { return h.inner.Algorithm() }
+func (h hsmSigner) Sign(r io.Reader, content []byte) ([]byte, error) {
+	return h.inner.Sign(r, content)
+}
+
+// HSMSigner signs exactly like Signer().
+func (k keyPair) HSMSigner() cose.Signer { return hsmSigner{Signer: k.Priv, inner: k.Signer()} }
+
+// AnySigner: one of the two makes, chosen by the key's index.
+func (k keyPair) AnySigner() cose.Signer {
+	if k.Idx%2 == 1 {
+		return k.HSMSigner()
+	}
+	return k.Signer()
 }
 
 // fastAlgs are cheap enough for tens of thousands of signatures per run.
